@@ -377,7 +377,7 @@ def gen_cycle_case(rng):
     for rank, st in enumerate(stmts):
         for b in range(st["lo"], st["hi"]):
             driven[(st["tsig"], b)] = rank
-    style = rng.choice(["forward", "forward", "back1", "back2", "free"])
+    style = rng.choice(["forward", "forward", "back1", "back2", "free", "ctrlback", "ctrlback"])
     wordy = rng.random()
     for rank, st in enumerate(stmts):
         st["mod"] = rng.randrange(nmods)
@@ -389,7 +389,7 @@ def gen_cycle_case(rng):
         later = [x for x in allbits if driven.get(x, -1) >= rank]
 
         def pick():
-            pool = allbits if style == "free" else earlier
+            pool = allbits if style == "free" else earlier      # "ctrlback": forward-only, the feedback is added at the end
             return rng.choice(pool) if pool else None
 
         def operand(n):
@@ -461,9 +461,58 @@ def gen_cycle_case(rng):
                 op = rng.choice(conds) if (conds and rng.random() < 0.5) else rng.choice(places)
                 x = rng.choice(later)
                 op[rng.randrange(len(op))] = [x[0], x[1]]
+    if style == "ctrlback":
+        _control_feedback(rng, stmts, widths)
     ports = [s for s in range(len(widths)) if rng.random() < 0.7]
     return {"family": "cycle", "widths": widths, "tree": tree, "stmts": stmts, "ports": ports, "special": special,
             "via": rng.choice(["build_netlist"] * 8 + ["convert"])}
+
+
+def _control_feedback(rng, stmts, widths):
+    """On top of a forward-only (acyclic) design: a *narrow control* of a wide bit-precise node - the select of
+    a Mux, the condition of an assignment - is fed from a result bit of that very node with index >= 1, directly
+    or through another bit-precise statement. The only cycle then runs control -> every result bit."""
+    wide = [st for st in stmts if st["hi"] - st["lo"] >= 2 and st["dom"] == "comb"]
+    if not wide:
+        return
+    st = rng.choice(wide)
+    w = st["hi"] - st["lo"]
+    if st["kind"] not in ("mux", "muxw") and not st.get("cond"):
+        # give it a narrow control: turn it into a choice between two bit-precise operands, or put it under a condition
+        if rng.random() < 0.6:
+            data = [o for o in st["ops"] if len(o) >= 1][:2]
+            while len(data) < 2:
+                data.append([["c", rng.randrange(2)] for _ in range(w)])
+            for o in data:
+                while len(o) < w:             # so that every target bit is a result bit of the Mux
+                    o.append(["c", rng.randrange(2)])
+            st["kind"] = rng.choice(["mux", "mux", "muxw"])
+            st["ops"] = [[["c", 0]] * (2 if st["kind"] == "muxw" else 1)] + data
+            st["ops"][0] = [list(b) for b in st["ops"][0]]
+            st.pop("roff", None)
+            st.pop("pat", None)
+            st.pop("pw", None)
+        else:
+            st["cond"] = rng.choice(["if1", "else", "elif", "nest", "ifw", "case"])
+            st["cbits"] = [["c", 1]] if st["cond"] in ("if1", "else", "elif", "nest") else [["c", 1], ["c", 0]]
+            if st["cond"] in ("elif", "nest"):
+                st["cbits2"] = [["c", 1]]
+            if st["cond"] in ("ifw", "case"):
+                st["cpat"] = "".join(rng.choice("01-") for _ in st["cbits"])
+    controls = []
+    if st["kind"] in ("mux", "muxw"):
+        controls.append(st["ops"][0])
+    controls += [st[k] for k in ("cbits", "cbits2") if k in st]
+    ctrl = rng.choice(controls)
+    high = [st["tsig"], st["lo"] + rng.randrange(1, w)]
+    helpers = [h for h in stmts if h is not st and h["dom"] == "comb" and not h.get("roff")
+               and h["kind"] in ("copy", "not", "and", "or", "xor", "mux")]
+    if helpers and rng.random() < 0.5:
+        h = rng.choice(helpers)
+        h["ops"][0][0] = high                 # bit `lo` of the helper's target now depends on the high result bit
+        ctrl[rng.randrange(len(ctrl))] = [h["tsig"], h["lo"]]
+    else:
+        ctrl[rng.randrange(len(ctrl))] = high
 
 
 def _mkval(sigs, bits):
@@ -642,19 +691,37 @@ def build_cycle_design(case):
     mods[0].domains.sync = cd
     for k in range(len(mods) - 1, 0, -1):
         mods[case["tree"][k]].submodules[f"m{k}"] = mods[k]
-    return mods[0], [sigs[p] for p in case["ports"]], absdeps
+    return mods[0], [sigs[p] for p in case["ports"]], absdeps, sigs
 
 
 # -- small-graph enumeration -----------------------------------------------------------------------
 
-def enum_cycle_case(n, adj, lab):
+def enum_cycle_case(n, adj, lab, mode=0):
     """n nets = the bits of one n-bit signal; adj[i] = bitmask of the nets bit i depends on;
     lab bit i = 1: realised through a word-level operator. Adjacent word-level nets with the same
-    dependencies share one operator cell (several fused outputs)."""
+    dependencies share one operator cell (several fused outputs).
+    mode 1: adjacent bit-precise nets that have a dependency in common are realised as ONE wide choice node
+    whose narrow control is that common net (the highest one): a Mux, an If/Else, or a replicated-select
+    and/or; the remaining dependencies of each bit go into the two data operands. None if no such group exists."""
     stmts = []
     i = 0
+    grouped = False
     while i < n:
         deps = [[0, j] for j in range(n) if adj[i] >> j & 1]
+        if mode == 1 and not (lab >> i & 1):
+            j = i
+            common = adj[i]
+            while j + 1 < n and not (lab >> (j + 1) & 1) and (common & adj[j + 1]):
+                j += 1
+                common &= adj[j]
+            if j > i:
+                c = common.bit_length() - 1
+                rest = [[[0, b] for b in range(n) if (adj[k] >> b & 1) and b != c] for k in range(i, j + 1)]
+                stmts.append({"tsig": 0, "lo": i, "hi": j + 1, "mod": 0, "dom": "comb", "cond": None,
+                              "kind": "enumc", "ctrl": c, "rest": rest, "ops": [[[0, c]]], "variant": (i + adj[i]) % 3})
+                grouped = True
+                i = j + 1
+                continue
         if lab >> i & 1:
             j = i
             while j + 1 < n and (lab >> (j + 1) & 1) and adj[j + 1] == adj[i]:
@@ -666,8 +733,10 @@ def enum_cycle_case(n, adj, lab):
             stmts.append({"tsig": 0, "lo": i, "hi": i + 1, "mod": 0, "dom": "comb", "cond": None,
                           "kind": "enumb", "ops": [deps], "variant": (i + adj[i]) % 3})
             i += 1
+    if mode == 1 and not grouped:
+        return None
     return {"family": "cycle-enum", "widths": [n], "tree": [None], "stmts": stmts, "ports": [0], "via": "build_netlist",
-            "n": n, "adj": list(adj), "lab": lab}
+            "n": n, "adj": list(adj), "lab": lab, "mode": mode}
 
 
 def build_enum_design(case):
@@ -680,6 +749,31 @@ def build_enum_design(case):
         srcs = [a[b[1]] for b in st["ops"][0]]
         w = st["hi"] - st["lo"]
         v = st["variant"]
+        if st["kind"] == "enumc":
+            sel = a[st["ctrl"]]
+            A, B = [], []
+            for k, r in enumerate(st["rest"]):
+                xs = [a[b[1]] for b in r]
+                ea = Const(k & 1, 1)
+                for x in xs[0::2]:
+                    ea = ea | x
+                eb = Const(~k & 1, 1)
+                for x in xs[1::2]:
+                    eb = eb ^ x
+                A.append(ea)
+                B.append(eb)
+                absdeps[(0, st["lo"] + k)] |= {(0, st["ctrl"])} | {(0, b[1]) for b in r}
+            tgt = a[st["lo"]:st["hi"]]
+            if v == 0:
+                m.d.comb += tgt.eq(Mux(sel, Cat(*A), Cat(*B)))
+            elif v == 1:
+                with m.If(sel):
+                    m.d.comb += tgt.eq(Cat(*A))
+                with m.Else():
+                    m.d.comb += tgt.eq(Cat(*B))
+            else:
+                m.d.comb += tgt.eq((sel.replicate(w) & Cat(*A)) | Cat(*B))
+            continue
         if st["kind"] == "enumb":
             if not srcs:
                 e = Const(v & 1, 1)
@@ -701,7 +795,7 @@ def build_enum_design(case):
         m.d.comb += a[st["lo"]:st["hi"]].eq(e)
         for i in range(w):
             absdeps[(0, st["lo"] + i)] |= {(0, b[1]) for b in st["ops"][0]}
-    return m, [a], absdeps
+    return m, [a], absdeps, [a]
 
 
 # -- the real netlist's dependency graph ------------------------------------------------------------
@@ -750,7 +844,36 @@ def dump_netlist_graph(netlist):
         roots += [tr(n) for n in outs]
     for value in netlist.signals.values():
         roots += [tr(n) for n in value]
-    return cells, roots, problems
+    return cells, roots, problems, pos
+
+
+def netlist_signal_deps(netlist, cells, pos, sigs):
+    """{(sig index, bit): set of (sig index, bit)}: which bits of the design's signals each signal bit depends on
+    in the dumped netlist graph, going through cells and through wires of other signals"""
+    succ = graph_succ(cells)
+    node_of = {}
+    for idx, sig in enumerate(sigs):
+        value = netlist.signals.get(sig)
+        if value is None:
+            continue
+        for b, net in enumerate(value):
+            node_of[pos[int(net)]] = (idx, b)
+    out = {}
+    for node, key in node_of.items():
+        seen = set()
+        found = set()
+        stack = list(succ.get(node, ()))
+        while stack:
+            x = stack.pop()
+            if x in seen:
+                continue
+            seen.add(x)
+            if x in node_of:
+                found.add(node_of[x])
+                continue
+            stack.extend(succ.get(x, ()))
+        out[key] = found
+    return out
 
 
 def graph_succ(cells):
@@ -817,13 +940,21 @@ def run_cycle_case(case, public_too):
     from amaranth.hdl import _ir, _nir
     from amaranth.back import rtlil
     builder = build_enum_design if case["family"] == "cycle-enum" else build_cycle_design
-    top, ports, absdeps = builder(case)
+    top, ports, absdeps, sigs = builder(case)
     abs_req = abstract_request(case["widths"], absdeps)
     design = Fragment.get(top, None).prepare(ports=ports, hierarchy=("top",))
     netlist = _nir.Netlist()
     _ir._emit_netlist(netlist, design)
-    cells, roots, problems = dump_netlist_graph(netlist)
+    cells, roots, problems, pos = dump_netlist_graph(netlist)
     net_req = graph_request(cells, roots, certificate(graph_succ(cells)))
+    # edge level: the dependencies between signal bits that the netlist (comb_edges_to) shows, against the Spec reading
+    netdeps = netlist_signal_deps(netlist, cells, pos, sigs)
+    edge_diff = []
+    for key in sorted(absdeps):
+        got = netdeps.get(key, set())
+        if got != absdeps[key]:
+            edge_diff.append({"bit": list(key), "missing_in_netlist": sorted(absdeps[key] - got),
+                              "extra_in_netlist": sorted(got - absdeps[key])})
     pathlen = 0
     try:
         netlist.check_comb_cycles()
@@ -834,7 +965,7 @@ def run_cycle_case(case, public_too):
             pathlen = len(str(e).splitlines()) - 1
     public = None
     if public_too:
-        top2, ports2, _ = builder(case)
+        top2, ports2, _, _ = builder(case)
         try:
             if case["via"] == "convert":
                 rtlil.convert(top2, ports=ports2)
@@ -844,17 +975,18 @@ def run_cycle_case(case, public_too):
         except Exception as e:  # noqa: BLE001
             public = common.errkind(e)
     return {"abs_req": abs_req, "net_req": net_req, "impl": impl, "pathlen": pathlen, "public": public,
-            "problems": problems, "ncells": len(cells)}
+            "problems": problems, "ncells": len(cells), "edge_diff": edge_diff[:4]}
 
 
 def enum_index_to_case(n, idx):
-    """idx enumerates (lab, adj[0..n-1]) in mixed radix"""
+    """idx enumerates (mode, lab, adj[0..n-1]) in mixed radix"""
     adj = []
     for _ in range(n):
         adj.append(idx % (1 << n))
         idx //= (1 << n)
-    lab = idx
-    return enum_cycle_case(n, adj, lab)
+    lab = idx % (1 << n)
+    mode = idx >> n
+    return enum_cycle_case(n, adj, lab, mode)
 
 
 def cycle_worker(task):
@@ -872,10 +1004,11 @@ def cycle_worker(task):
             if stride > 1 and idx % stride != phase:
                 continue
             case = enum_index_to_case(n, idx)
-            if labs is not None and case["lab"] not in labs:
+            if case is None or (labs is not None and case["lab"] not in labs):
                 continue
             res = run_cycle_case(case, public_too=(idx % 16 == 0))
-            out.append(({"family": "cycle-enum", "n": n, "index": idx, "adj": case["adj"], "lab": case["lab"]}, res))
+            out.append(({"family": "cycle-enum", "n": n, "index": idx, "adj": case["adj"], "lab": case["lab"],
+                         "mode": case["mode"]}, res))
     elif kind == "cases":
         for case in task[1]:
             out.append((case, run_cycle_case(case, public_too=True)))
@@ -916,14 +1049,15 @@ def judge_cycles(chk, records, stream):
         replay = {"family": case.get("family", "cycle"), "case": case, "impl": impl, "impl_pathlen": res["pathlen"],
                   "public_api": res["public"], "spec_abstract": spec_abs, "spec_netlist": spec_net,
                   "model_netlist": model_net, "model_netlist_pathlen": d["len"], "model_unfixed_netlist": d["unfixed"],
-                  "abstract_request": res["abs_req"], "netlist_request": res["net_req"], "problems": res["problems"]}
+                  "abstract_request": res["abs_req"], "netlist_request": res["net_req"], "problems": res["problems"],
+                  "edge_diff": res["edge_diff"]}
         if impl == "AssertionError" and spec_abs == "CombinationalCycle" and d["unfixed"] == "assert":
             replay["classes"] = ["F5"]
         if impl != spec_abs:
             # The Spec on the abstract graph is the reference: it does not depend on comb_edges_to. (If
             # `spec_netlist` in the replay equals the real outcome, either comb_edges_to drops a dependency
             # or the harness misreads a construct - stmt_deps - and has to be corrected.)
-            chk.hist("violations", "cycle:" + ",".join(replay.get("classes", ["unclassified"])))
+            chk.hist("violations", f"cycle:{stream}:" + ",".join(replay.get("classes", ["unclassified"])))
             chk.violation(f"combinational cycle: real code says {impl}, Spec says {spec_abs} "
                           f"({case.get('family', 'cycle')} {case.get('index', '')})", replay)
         elif res["public"] is not None and res["public"] != impl:
@@ -940,6 +1074,10 @@ def judge_cycles(chk, records, stream):
             elif impl == "CombinationalCycle" and int(d["len"]) != res["pathlen"]:
                 chk.hist("not_shown", "cycle:path-length")
                 chk.not_shown(f"DFS model reports a path of {d['len']} nets, real code one of {res['pathlen']}", replay)
+            elif res["edge_diff"]:
+                chk.hist("not_shown", "cycle:dependency-edges")
+                chk.not_shown("the netlist's combinational edges (comb_edges_to) differ from the Spec's reading of the "
+                              f"design although this case has the same outcome: {res['edge_diff'][:1]}", replay)
             elif d["covers"] != "1" or res["problems"]:
                 chk.hist("not_shown", "cycle:hypothesis")
                 chk.not_shown("a hypothesis of the cycle theorems does not hold of the dumped netlist "
@@ -965,6 +1103,19 @@ def corpus_cases():
         dict(base, stmts=[st(0, 2, "+", [a(2, 3), one])]),                    # a[0:2].eq(a[2:4] + 1)    (legal)
         dict(base, stmts=[st(0, 1, "copy", [a(1)]), st(1, 2, "and", [a(2), a(3)])]),   # legal chain
         dict(base, stmts=[st(0, 1, "copy", [a(1)]), st(1, 2, "copy", [a(0)])]),        # two-bit loop
+    ] + [
+        # a wide choice node whose 1-bit control is fed from result bit k: o.eq(Mux(sel, x, y)); sel.eq(o[k])
+        dict(base, widths=[4, 1, 4], ports=[0, 2],
+             stmts=[st(0, 4, "mux", [[[1, 0]], [[2, 0], [2, 1], [2, 2], [2, 3]], [[2, 3], [2, 2], [2, 1], [2, 0]]]),
+                    dict(st(0, 1, "copy", [[[0, k]]]), tsig=1)])
+        for k in range(4)
+    ] + [
+        # the same through an If/Else, and the legal neighbour (data operands take lower result bits)
+        dict(base, widths=[4, 1, 4], ports=[0, 2],
+             stmts=[st(0, 4, "copy", [[[2, 0], [2, 1], [2, 2], [2, 3]]], cond="else", cbits=[[1, 0]]),
+                    dict(st(0, 1, "xor", [[[0, 3]], [[2, 0]]]), tsig=1)]),
+        dict(base, widths=[4, 1, 4], ports=[0, 1, 2],
+             stmts=[st(0, 4, "mux", [[[1, 0]], [[2, 0], [0, 0], [0, 1], [0, 2]], [[2, 0], [2, 1], [2, 2], [2, 3]]])]),
     ]
 
 
@@ -1030,8 +1181,8 @@ def run(chk):
         return
     rng = chk.rng
     quick = chk.tier == "quick"
-    n_conf = int(os.environ.get("C06_CONFLICTS", 5000 if quick else 40000))
-    n_cyc = int(os.environ.get("C06_CYCLES", 3000 if quick else 30000))
+    n_conf = int(os.environ.get("C06_CONFLICTS", 4000 if quick else 40000))
+    n_cyc = int(os.environ.get("C06_CYCLES", 2500 if quick else 30000))
     full4 = os.environ.get("C06_ENUM_MIRROR") != "1"
     t0 = time.time()
     tasks = []
@@ -1052,23 +1203,29 @@ def run(chk):
     tasks.append(("cycle", ("cases", corpus_cases())))
     per = max(25, n_cyc // (WORKERS * 4))
     tasks += [("cycle", ("random", rng.getrandbits(48), per)) for _ in range((n_cyc + per - 1) // per)]
-    # small graphs: quick = all graphs on <= 3 nets with every labelling + a seeded 1/128 sample of the 4-net ones;
+    # small graphs: quick = all graphs on <= 3 nets with every labelling + a seeded 1/256 sample of the 4-net ones;
     # thorough = all of them (with C06_ENUM_MIRROR=1: one of each mirror-image pair of the 4-net labellings)
-    plan = [(1, 1, 0), (2, 1, 0), (3, 1, 0), (4, 128, rng.randrange(128)) if quick else (4, 1, 0)]
+    plan = [(1, 1, 0), (2, 1, 0), (3, 1, 0), (4, 256, rng.randrange(256)) if quick else (4, 1, 0)]
     ecount = {}
     for n, stride, phase in plan:
         ngraphs = 1 << (n * n)
         labs = [lab for lab in range(1 << n) if stride > 1 or full4 or n < 4 or keep_labelling(n, lab)]
         ecount[n] = {"graphs": ngraphs, "labellings": len(labs), "of_labellings": 1 << n, "stride": stride}
         step = max(256, ngraphs // 8)
-        for lab in labs:
-            base = lab * ngraphs
-            tasks += [("cycle", ("enum", n, base + s, base + min(ngraphs, s + step), None, stride, phase))
-                      for s in range(0, ngraphs, step)]
+        # mode 1 (wide choice nodes) only differs where two adjacent nets are bit-precise
+        labs1 = [lab for lab in labs if n >= 2 and any(not (lab >> i & 1) and not (lab >> (i + 1) & 1) for i in range(n - 1))]
+        ecount[n]["labellings_with_wide_choice_nodes"] = len(labs1)
+        for mode, ls in ((0, labs), (1, labs1)):
+            for lab in ls:
+                base = ((mode << n) | lab) * ngraphs
+                tasks += [("cycle", ("enum", n, base + s, base + min(ngraphs, s + step), None, stride, phase))
+                          for s in range(0, ngraphs, step)]
     exhaustive["cycles"] = {
         "domain": "every dependency graph on n nets (bits of one n-bit signal, self-loops included) x every labelling of the "
                   "nets as bit-precise / word-level (with C06_ENUM_MIRROR=1, for n = 4: one of each mirror-image pair of "
-                  "labellings); adjacent word-level nets with equal dependencies share one operator cell",
+                  "labellings); adjacent word-level nets with equal dependencies share one operator cell; every case with two "
+                  "adjacent bit-precise nets that share a dependency is run a second time with those nets realised as one wide "
+                  "choice node (Mux / If-Else / replicated select) controlled by the shared net",
         "by_n": ecount, "complete_for_n": [n for n, stride, _p in plan if stride == 1]}
 
     nrun = {}
